@@ -18,6 +18,10 @@ def decoder_cases():
     for first in ("pk", "ru", "sk"):
         L.append(("dec u - %s" % first, ["E:end"]))
         L.append(("dec u 0102 %s" % first, ["E:end"]))
+        # other streams that cannot be read: a file that could not be opened (failbit), a stream already read to its end
+        for kind in ("m", "e", "m+", "e+"):
+            L.append(("dec %s - %s" % (kind, first + (",pk,ru" if kind.endswith("+") else "")), ["E:end"] * (3 if kind.endswith("+") else 1)))
+            L.append(("dec %s 0102 %s" % (kind, first), ["E:end"]))
     # exactly k windows of data, consumed completely, then one more operation
     for k in (1, 2, 3):
         for delta in (-2, -1, 0, 1, 2):
